@@ -211,6 +211,34 @@ func execC12(c c12Case) (res core.Result) {
 	var running atomic.Int64
 	var kindsRunning sync.Map
 
+	// diagnostic event log (relative ms, op, error); only ever printed as part of a violation message
+	t00 := time.Now()
+	var evMu sync.Mutex
+	var evLog []string
+	logEv := func(f string, a ...any) {
+		evMu.Lock()
+		if len(evLog) < 4000 {
+			evLog = append(evLog, fmt.Sprintf("%.1fms ", float64(time.Since(t00).Microseconds())/1000)+fmt.Sprintf(f, a...))
+		}
+		evMu.Unlock()
+	}
+	diag := func() string {
+		evMu.Lock()
+		defer evMu.Unlock()
+		var b strings.Builder
+		b.WriteString("\nreplica files:")
+		for _, f := range lsw.ListLTX(e.replicaDir) {
+			fmt.Fprintf(&b, " L%d:%d-%d(%dB@%.0fms)", f.Level, f.Min, f.Max, f.Size, float64(f.Mod.Sub(t00).Microseconds())/1000)
+		}
+		b.WriteString("\nevents:\n")
+		b.WriteString(strings.Join(evLog, "\n"))
+		return b.String()
+	}
+	defer func() {
+		if res.Violation != nil && (strings.HasPrefix(res.Violation.Oracle, "r1-") || strings.HasPrefix(res.Violation.Oracle, "txid-")) {
+			res.Violation.Msg += diag()
+		}
+	}()
 	// watchdog-wrapped op
 	runOp := func(name string, fn func(context.Context) error) {
 		done := make(chan struct{})
@@ -232,7 +260,9 @@ func execC12(c c12Case) (res core.Result) {
 				}
 			}
 			kindsRunning.Store(name, true)
-			_ = fn(octx)
+			logEv("begin %s", name)
+			err := fn(octx)
+			logEv("end %s err=%v", name, err)
 			kindsRunning.Delete(name)
 			running.Add(-1)
 		}()
